@@ -102,6 +102,7 @@ def run(F, res, tier):
         first_wins = dcs == {"Vacant"} and not others
     res.ob("X1", "first-occurrence-wins", "ScopeNames::add keeps the first definition of a name (inner scopes are added first, so inner shadows outer, as in lookup)",
            first_wins, where=add.loc(), how="insert only into a vacant entry: %s" % first_wins)
+    extra_rules(F, res)
     # ---- X2
     cd = F.fn("ide::ide::completion::complete_dot")
     fs = [F.fns[p] for p in F.with_closures(cd.path)]
@@ -143,3 +144,81 @@ def run(F, res, tier):
     # the token whose range is used is the token at the cursor
     tk = any(FL.short(callee(t) or callee_def(t)) == "syntax::best_token_at_offset" or (callee(t) or "") == "syntax::best_token_at_offset" for b, t in cn.calls())
     res.ob("X3", "token-at-cursor", "that token is best_token_at_offset(file, cursor)", tk, where=cn.loc(), how=str(tk))
+
+
+def extra_rules(F, res):
+    # ---- X4: fields offered after `value.` are the fields every constructor has with the same type
+    lw = F.fn("ide::def::lower::LowerCtx::lower_custom_type")
+    d = FL.Defs(lw)
+    ret = [(b, t) for b, t in lw.calls() if FL.short(callee(t) or callee_def(t)) == "HashMap::retain"]
+    ok, why = False, "no HashMap::retain over the first constructor's fields"
+    for b, t in ret:
+        o = d.origin_op(t["args"][1])
+        if o.get("k") == "agg" and "closure" in o["rv"] and o["rv"]["closure"] in F.fns:
+            cf = F.fns[o["rv"]["closure"]]
+            dc = FL.Defs(cf)
+            none_false = eq_cmp = False
+            for bb in sorted(cf.reachable()):
+                tt = cf.term(bb)
+                if tt["k"] == "switch":
+                    l = op_local(tt["op"])
+                    oo = dc.origin(l) if l is not None else {}
+                    if oo.get("k") == "rv" and oo["rv"]["k"] == "discr" and "Option" in oo["rv"]["of"]:
+                        tg = dict((v, x) for v, x in tt["targets"])
+                        none_bb = tg.get(0, tt["otherwise"])
+                        for s_ in cf.blocks[none_bb]["stmts"]:
+                            if s_["k"] == "assign" and s_["place"]["l"] == 0 and s_["rv"]["k"] == "use" and \
+                                    str((s_["rv"]["op"].get("k") or {}).get("bits")) == "0":
+                                none_false = True
+            for bb, tt in cf.calls():
+                c = callee(tt) or callee_def(tt) or ""
+                if c.endswith("::eq") and "PartialEq" in c:
+                    if tt["dest"]["l"] == 0 or dc.origin(0).get("bb") == bb:
+                        eq_cmp = True
+            ok = none_false and eq_cmp
+            why = "a field missing from another constructor is dropped: %s; otherwise kept only if the types are equal: %s" % (none_false, eq_cmp)
+    res.ob("X4", "common-fields-intersection", "the fields offered after `value.` are those every constructor of the type has, with the same type (intersection, not union)",
+           ok, where=lw.loc(), how=why)
+    # ---- X5: an imported module is offered under the name the import binds
+    ce = F.fn("ide::ide::completion::complete_expr")
+    de = FL.Defs(ce)
+    okx, whyx = False, "no resolve_module call in the import loop"
+    for b, t in ce.calls():
+        if callee(t) == "ide::def::resolver::Resolver::resolve_module":
+            # backward slice of the name argument
+            seen_l, st, fields = set(), [t["args"][1]], set()
+            while st:
+                op = st.pop()
+                pl = op_place(op)
+                if pl is None:
+                    continue
+                fields |= {e.get("n") for e in pl["p"] if isinstance(e, dict) and "f" in e}
+                if pl["l"] in seen_l:
+                    continue
+                seen_l.add(pl["l"])
+                for dd in de.defs.get(pl["l"], []):
+                    if dd[2] == "call":
+                        st.extend(dd[3]["args"])
+                        for a in dd[3]["args"]:
+                            oo = de.origin_op(a)
+                            if oo.get("k") == "agg" and "closure" in oo["rv"] and oo["rv"]["closure"] in F.fns:
+                                cfn = F.fns[oo["rv"]["closure"]]
+                                for bb_, i_, s_ in cfn.stmts():
+                                    rv_ = s_.get("rv", {})
+                                    for key in ("op", "place"):
+                                        pp = op_place(rv_[key]) if key == "op" and isinstance(rv_.get(key), dict) else rv_.get(key) if key == "place" else None
+                                        if pp:
+                                            fields |= {e.get("n") for e in pp["p"] if isinstance(e, dict) and "f" in e}
+                                st.extend(oo["rv"]["ops"])
+                    else:
+                        rv = dd[3]["rv"]
+                        for key in ("op", "a", "b"):
+                            if isinstance(rv.get(key), dict):
+                                st.append(rv[key])
+                        if "place" in rv:
+                            st.append({"cp": rv["place"]})
+                        st.extend(rv.get("ops", []))
+            okx = "as_name" in fields and "accessor" in fields
+            whyx = "the looked-up name derives from fields %s" % sorted(x for x in fields if x)
+    res.ob("X5", "import-bound-name", "an imported module is looked up (and offered) under the name the import binds: its `as` alias if there is one, else its last path segment",
+           okx, where=ce.loc(), how=whyx)
